@@ -17,6 +17,16 @@ B  close       the SERVER decides to close while a write is blocked at the socke
                queue behind it in the stream buffer.  Also WebSocket-over-HTTP/1.  Single path per order of the
                sources (M=0): the stall is established at quiescence, the interleaving is not the point (only
                h2 / pause / GOAWAY gets the full quick bounds).
+   read timeout  (release kind "rtimeout", families A, B and C) config.read_timeout = 3 (every other scenario: None)
+               and the release source is two jumps of the clock to the next armed deadline: the stalled client is also
+               SILENT, the server's reader waits for its bytes and gives up after read_timeout, which closes the
+               connection.  Demanded from the moment the transport is closed (a close that waits behind data the
+               peer does not take is not yet one): no send is left waiting.
+   PRIORITY    (release kinds winprio1 / winprio2 / prio_resume, HTTP/2) the client lifts the pressure AND re-prioritises
+               the stalled stream: connection credit, then WINDOW_UPDATE(stream) + PRIORITY(stream) in one segment
+               (one read) or in two (N=1, the PRIORITY placed mid-flight); PRIORITY(stream) while the transport is
+               stalled (before the request / after the response head), then the peer resumes reading.  N=16 (sends
+               waiting mid-body) and N=1 (only the final end-of-body drain waits).  Single path (M=0) otherwise.
 C  piece size  the same response written in SMALL pieces (1000 B x 400 and 512 B x 640 in the quick tier: 2.4x /
                2x BOUND, so a response that is buffered whole is seen whatever the size) on h1 (chunked), ws-over-h1
                (one message per piece), h2 and ws-over-h2 (the application yields after each piece, so every piece is
@@ -36,15 +46,16 @@ from typing import Any, List
 
 import h2.settings
 
-from mc.clients import (OP_BIN, h1_request, h2_request_headers, make_client, raw_h2_frame, ws_frame, ws_h1_handshake,
+from mc.clients import (OP_BIN, Client, h1_request, h2_request_headers, make_client, raw_h2_frame, ws_frame, ws_h1_handshake,
                         ws_h2_headers)
 from mc.explore import V
 from mc.harness import internal_errors, std_execute
 
 ID = "C08"
 LEVEL = "model_checking"
-TECHNIQUE = ("stateless deviation-bounded exploration of release events (credit, resume, reset, EOF, failed write, "
-             "client GOAWAY, connection error, shutdown) against continuous application writes of several piece "
+TECHNIQUE = ("stateless deviation-bounded exploration of release events (credit, resume, credit/resume combined with a "
+             "PRIORITY frame for the stalled stream, reset, EOF, failed write, "
+             "client GOAWAY, connection error, shutdown, expiry of config.read_timeout under clock jumps) against continuous application writes of several piece "
              "sizes on the real H11Protocol/H2Protocol/StreamBuffer/WSStream/TCPServer; black-box held-bytes "
              "monitor at every quiescent point")
 RULE = ("scenario = engine x carrier(h1,ws/h1,h2,ws/h2) x N pieces x piece size x pressure kind(transport stalled "
@@ -58,13 +69,20 @@ ASSUMPTIONS = [
     "trio's stream has no user-space buffer (send_all blocks at once), asyncio's transport buffers up to its high-water mark",
     "a client GOAWAY / a connection error closes the connection as far as the sender is concerned: a release is "
     "demanded from the moment the server has read it, whether or not the close has completed on the wire",
+    "read timeout: time passes only at quiescence, by jumps to the next armed deadline (any connection's); the release "
+    "of waiting sends is demanded only once the server's transport of the stalled connection is closed - with the "
+    "peer not reading, asyncio's close waits for its write buffer to drain and nothing is demanded meanwhile",
 ]
 BOUNDS_DOC = {
-    "quick": "family A: M<=1, S<=2 on N in {1,4,16} (N=64, and the no-op failed write under a transport stall: M=0, "
+    "quick": "PRIORITY kinds: M=0, S<=1 (h2 window 0 N in {1,16} one read; h2 pause / midpause N=16 PRIORITY then resume), two "
+             "reads: N=1, M<=1, S=0; family A: M<=1, S<=2 on N in {1,4,16} (N=64, and the no-op failed write under a transport stall: M=0, "
              "S<=1; N=4 only none/eof; N=1,4,64 skipped where identical to N=16); family B: M=0, S<=1, N=16 "
-             "(h2/pause/GOAWAY: M<=1, S<=2); family C: M=0, S<=1, pieces 1000 B x 400, 512 B x 640",
+             "(h2/pause/GOAWAY: M<=1, S<=2); family C: M=0, S<=1, pieces 1000 B x 400, 512 B x 640; read timeout (3 s, two "
+             "clock jumps): family A on N in {1,16} with M=0, S<=2, family B (midpause on h1/h2/ws-h2, ws/h1 "
+             "pause) and family C (window 0) with theirs",
     "thorough": "family A: M<=2, S<=3, trio R<=1 (N=64: M<=1, S<=2); family B: M<=1, S<=2; family C: M=0, S<=2, "
-                "pieces 100 B x 2400, 512 B x 640, 1000 B x 400, 1023/1024 B x 320, 4096 B x 96",
+                "pieces 100 B x 2400, 512 B x 640, 1000 B x 400, 1023/1024 B x 320, 4096 B x 96; read timeout on every N "
+                "and piece size",
 }
 BUDGET = {"quick": 300, "thorough": 1800}
 
@@ -75,20 +93,21 @@ BOUND = 160 * 1024
 
 CARRIER_PRESSURE = [("h1", "pause"), ("h2", "win0"), ("h2", "pause"), ("ws/h2", "win0")]
 RELEASES = {
-    "h1": ["none", "resume", "eof", "reset", "terminate"],
-    "h2": ["none", "credit", "resume", "rst", "eof", "reset", "wfail", "terminate"],
-    "ws/h2": ["none", "credit", "rst", "eof", "reset"],
+    "h1": ["none", "resume", "eof", "reset", "terminate", "rtimeout"],
+    "h2": ["none", "credit", "resume", "rst", "eof", "reset", "wfail", "terminate", "rtimeout"],
+    "ws/h2": ["none", "credit", "rst", "eof", "reset", "rtimeout"],
 }
+READ_TIMEOUT = 3  # release kind "rtimeout": config.read_timeout (shorter than keep_alive_timeout = 5)
 # Family B: (carrier, pressure, releases).  "midpause": the peer stops reading once the response head is out.
 CLOSE_FAMILY = [
     ("h2", "pause", ["goaway", "badframe"]),
-    ("h2", "midpause", ["none", "resume", "goaway", "badframe", "rst", "eof", "reset", "terminate"]),
+    ("h2", "midpause", ["none", "resume", "goaway", "badframe", "rst", "eof", "reset", "terminate", "rtimeout"]),
     ("h2", "win0", ["goaway", "badframe"]),
     ("ws/h2", "win0", ["goaway", "badframe"]),
-    ("ws/h2", "midpause", ["none", "resume", "goaway", "reset"]),
+    ("ws/h2", "midpause", ["none", "resume", "goaway", "reset", "rtimeout"]),
     ("h1", "pause", ["badreq"]),
-    ("h1", "midpause", ["none", "resume", "badreq", "eof", "reset", "terminate"]),
-    ("ws/h1", "pause", ["none", "resume", "eof", "reset", "terminate"]),
+    ("h1", "midpause", ["none", "resume", "badreq", "eof", "reset", "terminate", "rtimeout"]),
+    ("ws/h1", "pause", ["none", "resume", "eof", "reset", "terminate", "rtimeout"]),
     ("ws/h1", "midpause", ["none", "resume", "reset"]),
 ]
 # Family C: piece size -> number of pieces (total well above BOUND, whatever the size)
@@ -98,8 +117,19 @@ PIECE_FAMILY = [
     ("h1", "pause", ["none", "resume", "reset"]),
     ("ws/h1", "pause", ["none", "resume", "reset"]),
     ("h2", "pause", ["none", "resume", "goaway"]),
-    ("h2", "win0", ["none", "credit"]),
-    ("ws/h2", "win0", ["none", "credit"]),
+    ("h2", "win0", ["none", "credit", "rtimeout"]),
+    ("ws/h2", "win0", ["none", "credit", "rtimeout"]),
+]
+# PRIORITY family: release kinds in which the client, while lifting the pressure, also re-prioritises the stalled stream
+# (RFC 9113 5.3: PRIORITY is legal for a stream in any state; the priority tree is part of "which streams may send").
+#   winprio1     connection credit, then WINDOW_UPDATE(stream) + PRIORITY(stream) in ONE segment (one read)
+#   winprio2     the same frames in two segments (N=1: the PRIORITY is placed mid-flight, M<=1)
+#   prio_resume  PRIORITY(stream) while the transport is stalled, then the peer resumes reading
+# N=16: sends waiting mid-body; N=1: the only waiting send is the final end-of-body drain.  Single path (M=0).
+PRIO_RELEASES = ("winprio1", "winprio2", "prio_resume")
+PRIO_FAMILY = [
+    ("h2", "win0", 16, "winprio1"), ("h2", "win0", 1, "winprio1"), ("h2", "win0", 1, "winprio2"),
+    ("h2", "pause", 16, "prio_resume"), ("h2", "midpause", 16, "prio_resume"),
 ]
 # Events that do not lift the pressure and do not close the connection from the sender's point of view:
 # a client half-close while it still does not read, and the start of a graceful shutdown (in-flight requests
@@ -123,12 +153,16 @@ def scenarios(tier: str) -> List[Any]:
                         continue
                     if tier == "quick" and n == 4 and rel not in ("none", "eof"):
                         continue
+                    if tier == "quick" and rel == "rtimeout" and n not in (1, 16):
+                        continue  # the final drain (N=1) and a mid-body wait (N=16)
                     if tier == "quick" and n != 16 and _same_as_n16(engine, pressure, rel):
                         continue
                     out.append((engine, carrier, pressure, n, rel, CHUNK))
         for carrier, pressure, rels in CLOSE_FAMILY:
             for rel in rels:
                 out.append((engine, carrier, pressure, 16, rel, CHUNK))
+        for carrier, pressure, n, rel in PRIO_FAMILY:
+            out.append((engine, carrier, pressure, n, rel, CHUNK))
         for piece, n in sorted(PIECES[tier].items()):
             for carrier, pressure, rels in PIECE_FAMILY:
                 for rel in rels:
@@ -149,6 +183,8 @@ def family(params: Any) -> str:
     engine, carrier, pressure, n, rel, piece = params
     if piece != CHUNK:
         return "C"
+    if rel in PRIO_RELEASES:
+        return "B"
     if pressure == "midpause" or carrier == "ws/h1" or rel in ("goaway", "badframe", "badreq"):
         return "B"
     return "A"
@@ -157,12 +193,16 @@ def family(params: Any) -> str:
 def bounds(tier: str, params: Any) -> dict:
     fam = family(params)
     if tier == "quick":
+        if params[4] == "winprio2":
+            return {"M": 1, "S": 0, "R": 0}  # two reads: the PRIORITY frame has to land before the server has run dry
         if params[1:5] == ("h2", "pause", 16, "goaway"):
             return {"M": 1, "S": 2, "R": 0}  # the one server-side close whose placement among the writes is explored
         if fam != "A" or params[3] == 64:  # 1 MiB responses are expensive: placement is explored on N=16, size on N=64
             return {"M": 0, "S": 1, "R": 0}
         if params[2:5:2] == ("pause", "wfail"):
             return {"M": 0, "S": 1, "R": 0}  # a no-op while the peer does not read (see _same_as_n16)
+        if params[4] == "rtimeout":
+            return {"M": 0, "S": 2, "R": 0}  # clock jumps happen at quiescence only: mid-flight injections add little
         return {"M": 1, "S": 2, "R": 0}
     if fam == "C":
         return {"M": 0, "S": 2, "R": 0}
@@ -239,6 +279,12 @@ def build(params: Any) -> tuple:
         "terminate": [("terminate",)], "rst": [("cmd", 0, "rst", BIG, 8)],
         "credit": [("cmd", 0, "winup", BIG, big), ("cmd", 0, "winup", 0, big)],
         "goaway": [("cmd", 0, "goaway")], "badframe": [("data", 0, BAD_FRAME)], "badreq": [("data", 0, BAD_REQUEST)],
+        "rtimeout": [("tick",), ("tick",)],
+        "winprio1": [("cmd", 0, "winup", SIB, big), ("cmd", 0, "winup", 0, big),
+                     ("cmd", 0, "batch", ("winup", BIG, big), ("prio", BIG, 0, 32, False))],
+        "winprio2": [("cmd", 0, "winup", SIB, big), ("cmd", 0, "winup", 0, big),
+                     ("cmd", 0, "winup", BIG, big), ("cmd", 0, "prio", BIG, 0, 32, False)],
+        "prio_resume": [("cmd", 0, "prio", BIG, 0, 32, False), ("resume", 0)],
     }[rel]
     if rel == "credit" and pressure == "win0" and carrier == "h2":
         release = [("cmd", 0, "winup", SIB, big)] + release
@@ -246,7 +292,25 @@ def build(params: Any) -> tuple:
     sources = [("client", client), ("release", release), ("other", other)]
     sc = {"level": "conn", "conns": {0: conn0}, "client_factory": make_client, "apps": apps,
           "config": {"keep_alive_timeout": 5}, "sources": sources, "trio_rev": True, "monitor": monitor}
+    if rel == "rtimeout":
+        sc["config"]["read_timeout"] = READ_TIMEOUT
+    if rel in PRIO_RELEASES:
+        sc["client_factory"] = lambda world, k, opts: BatchClient(opts)
     return engine, sc
+
+
+class BatchClient(Client):
+    """("cmd", k, "batch", (name, *args), ...): several client frames written as ONE segment (one read for the server)."""
+
+    def command(self, ev: tuple) -> bytes:
+        if ev[2] == "batch":
+            return b"".join(Client.command(self, ("cmd", ev[1]) + tuple(sub)) for sub in ev[3:])
+        return Client.command(self, ev)
+
+    def cmd_enabled(self, ev: tuple) -> bool:
+        if ev[2] == "batch":
+            return all(Client.cmd_enabled(self, ("cmd", ev[1]) + tuple(sub)) for sub in ev[3:])
+        return Client.cmd_enabled(self, ev)
 
 
 def _big(w: Any) -> Any:
@@ -309,6 +373,10 @@ def oracle(w: Any, params: Any) -> List[dict]:
     # siblings
     fired = [e for _, e in w.driver.fired]
     all_other = ("data", 1, h1_request(b"GET", b"/other")) in fired
+    if all_other and rel == "rtimeout":
+        # the other connection has the read deadline too: a request sent at the very instant it expires may lose
+        t_req = next(t for t, e in w.driver.fired if e == ("data", 1, h1_request(b"GET", b"/other")))
+        all_other = t_req < w.conns[1].opened_at + READ_TIMEOUT
     if all_other and rel != "terminate":  # connections arriving after shutdown began are closed at once (C15)
         r1 = w.conns[1].client.h1.responses
         if not (r1 and r1[0]["complete"] and r1[0]["body"] == b"sib"):
@@ -332,6 +400,10 @@ def oracle(w: Any, params: Any) -> List[dict]:
         # closes the connection as far as the protocol is concerned and must release it
         not_release = False
     released = not _pressure_on(w) and rel != "none" and not not_release
+    if rel == "rtimeout":
+        # a clock jump is not itself a release (it may have fired another connection's deadline, or the idle timer
+        # before the request): the read timeout has done its work once the server's transport is closed
+        released = rec.closed_at is not None
     if pressure == "midpause" and ("release", "g") not in fired:
         released = False  # the release came before the stall: the application is parked on the harness's own gate
     if inst is not None and released:
@@ -340,7 +412,7 @@ def oracle(w: Any, params: Any) -> List[dict]:
             pend = []  # a response head waits in the transport write itself, which an EOF cannot release
         if pend:
             out.append(V("send-never-released", f"{tag}{size}", f"send #{inst.sends.index(pend[0])} of {len(inst.sends)} still pending; outcome={inst.outcome}"))
-        if rel in ("credit", "resume") and not pend and rec.closed_at is None:
+        if rel in ("credit", "resume") + PRIO_RELEASES and not pend and rec.closed_at is None:
             src = [i for i, (nm, _) in enumerate(w.driver.sources) if nm == "release"][0]
             all_released = w.driver.pos[src] == len(w.driver.sources[src][1])
             if all_released and _delivered(w) != n * piece and carrier != "ws/h2":
